@@ -145,6 +145,9 @@ def run_real(case):
         frames.append(_frame('AUTH', 1, 0, 'tok%d' % r[1]))
       elif r[0] == 'A':
         frames.append(_frame('AUTH', 2, 0, 'x'))
+      elif r[1] >= 10:
+        # an unrelated packet that would make a plausible CNXN if it were taken for one
+        frames.append(_frame('WRTE', 0x01000000, 777, 'device:SER:banner'))
       else:
         frames.append(_frame(['OKAY', 'WRTE', 'CLSE', 'SYNC', 'OPEN'][r[1] % 5], 3, 4, 'n' if r[1] % 2 else ''))
     from openhtf.util import timeouts
@@ -269,7 +272,7 @@ def nontrivial_key(case, obs):
 
 def gen_cases(rng, tier):
   cases = []
-  alpha = [['C', 4096, True], ['C', 256, False], ['T', 1], ['T', 2], ['A'], ['N', 0], ['N', 1]]
+  alpha = [['C', 4096, True], ['C', 256, False], ['T', 1], ['T', 2], ['A'], ['N', 0], ['N', 1], ['N', 11]]
   maxlen = 4 if tier == 'quick' else 5
   for n in range(0, maxlen + 1):
     for rs in itertools.product(alpha, repeat=n):
